@@ -281,8 +281,8 @@ def run_resume(ctx, idx0):
                 split_check(ctx, 'proximal_gradient', '%s;f=%s' % (kind, fn), lambda x, k: S.proximal_gradient(x, f, data, gam, k), x0, niter, n1,
                             callback_run=lambda x, k, cb: S.proximal_gradient(x, f, data, gam, k, callback=cb))
                 split_check(ctx, 'steepest_descent(constant-step)', kind,
-                            lambda x, k: S.steepest_descent(data, x, line_search=gam, maxiter=k) if k else None, x0, niter, n1,
-                            callback_run=lambda x, k, cb: S.steepest_descent(data, x, line_search=gam, maxiter=k, callback=cb))
+                            lambda x, k: S.steepest_descent(data, x, line_search=gam, maxiter=k, tol=0) if k else None, x0, niter, n1,
+                            callback_run=lambda x, k, cb: S.steepest_descent(data, x, line_search=gam, maxiter=k, tol=0, callback=cb))
                 # MLEM needs positivity
                 if kind == 'matrix':
                     Ap = odl.MatrixOperator(np.abs(A.matrix), domain=X, range=Y)
